@@ -122,19 +122,19 @@ theorem loadRaw_render_routing (ss : Bool) (cfg : LogicalConfig)
       | nil => rfl
       | cons l ls =>
         simp only [List.map_cons] at hlg hlo
-        simp [loadRaw, render, optEntry, docS, interp, interpFields, unknownKey, fieldNames, dfl, optF,
+        simp [loadRaw, render, optEntry, docS, docSWith, interp, interpFields, unknownKey, fieldNames, dfl, optF,
           lookup, hlg, rawLoad, appendersLossy, Typed.field, Typed.optField, tlookup, Typed.asDict,
           rootDefault, Typed.asLevel, Typed.asList, Typed.strs, meaning, loggerOf_typed]
     | some r =>
       have hr := interp_root ss r (fun t ht => hroot r t rfl ht)
       cases loggers with
       | nil =>
-        simp [loadRaw, render, optEntry, docS, interp, interpFields, unknownKey, fieldNames, dfl, optF,
+        simp [loadRaw, render, optEntry, docS, docSWith, interp, interpFields, unknownKey, fieldNames, dfl, optF,
           lookup, hr, rawLoad, appendersLossy, Typed.field, Typed.optField, tlookup, Typed.asDict,
           meaning, typedRoot, Typed.asLevel, Typed.asList, strs_names]
       | cons l ls =>
         simp only [List.map_cons] at hlg hlo
-        simp [loadRaw, render, optEntry, docS, interp, interpFields, unknownKey, fieldNames, dfl, optF,
+        simp [loadRaw, render, optEntry, docS, docSWith, interp, interpFields, unknownKey, fieldNames, dfl, optF,
           lookup, hr, hlg, rawLoad, appendersLossy, Typed.field, Typed.optField, tlookup, Typed.asDict,
           meaning, typedRoot, Typed.asLevel, Typed.asList, strs_names, loggerOf_typed]
   | some t =>
@@ -144,24 +144,24 @@ theorem loadRaw_render_routing (ss : Bool) (cfg : LogicalConfig)
     | none =>
       cases loggers with
       | nil =>
-        simp [loadRaw, render, optEntry, docS, interp, interpFields, unknownKey, fieldNames, dfl, optF,
+        simp [loadRaw, render, optEntry, docS, docSWith, interp, interpFields, unknownKey, fieldNames, dfl, optF,
           lookup, hrf, rawLoad, appendersLossy, Typed.field, Typed.optField, tlookup, Typed.asDict,
           rootDefault, Typed.asLevel, Typed.asList, Typed.strs, meaning, hn]
       | cons l ls =>
         simp only [List.map_cons] at hlg hlo
-        simp [loadRaw, render, optEntry, docS, interp, interpFields, unknownKey, fieldNames, dfl, optF,
+        simp [loadRaw, render, optEntry, docS, docSWith, interp, interpFields, unknownKey, fieldNames, dfl, optF,
           lookup, hrf, hlg, rawLoad, appendersLossy, Typed.field, Typed.optField, tlookup, Typed.asDict,
           rootDefault, Typed.asLevel, Typed.asList, Typed.strs, meaning, loggerOf_typed, hn]
     | some r =>
       have hr := interp_root ss r (fun t ht => hroot r t rfl ht)
       cases loggers with
       | nil =>
-        simp [loadRaw, render, optEntry, docS, interp, interpFields, unknownKey, fieldNames, dfl, optF,
+        simp [loadRaw, render, optEntry, docS, docSWith, interp, interpFields, unknownKey, fieldNames, dfl, optF,
           lookup, hrf, hr, rawLoad, appendersLossy, Typed.field, Typed.optField, tlookup, Typed.asDict,
           meaning, typedRoot, Typed.asLevel, Typed.asList, strs_names, hn]
       | cons l ls =>
         simp only [List.map_cons] at hlg hlo
-        simp [loadRaw, render, optEntry, docS, interp, interpFields, unknownKey, fieldNames, dfl, optF,
+        simp [loadRaw, render, optEntry, docS, docSWith, interp, interpFields, unknownKey, fieldNames, dfl, optF,
           lookup, hrf, hr, hlg, rawLoad, appendersLossy, Typed.field, Typed.optField, tlookup, Typed.asDict,
           meaning, typedRoot, Typed.asLevel, Typed.asList, strs_names, loggerOf_typed, hn]
 
